@@ -81,6 +81,118 @@ theorem tryCore_nil (b : M Val) : tryCore b [] none = b := by
 
 theorem tryFinally_none (b : M Val) : tryFinally b none = b := M_ext _ _ (no_finally b)
 
+/-! ### except clauses as syntax: the type test (`accepts`) and the block (`body`) -/
+
+/-- the shapes of an except clause whose type test is made explicit in the refinement -/
+inductive ClauseShape where
+  | bare (st : Node)                                   -- `except { st }`
+  | typed (s0 : Node) (ss : List Node) (st : Node)     -- `except "T0", "T1", … { st }`
+  | other                                              -- anything else: kept as a whole handler
+
+/-- reads the shape off the children (decidable; `other` whenever in doubt) -/
+def clauseShape (c : Node) : ClauseShape :=
+  match allSome c.children with
+  | some [st] => .bare st
+  | some kids =>
+    match kids.takeWhile (·.name == "string"), kids.dropWhile (·.name == "string") with
+    | s0 :: ss, [st] => if st.name = "statements" then .typed s0 ss st else .other
+    | _, _ => .other
+  | none => .other
+
+theorem mem_takeWhile_p {α : Type} (p : α → Bool) : ∀ (l : List α) (x : α), x ∈ l.takeWhile p → p x = true
+  | [], _, h => by simp at h
+  | a :: l, x, h => by
+    simp only [List.takeWhile_cons] at h
+    split at h
+    · rename_i hp
+      rcases List.mem_cons.1 h with rfl | h
+      · exact hp
+      · exact mem_takeWhile_p p l x h
+    · simp at h
+
+theorem clauseShape_bare {c st : Node} (h : clauseShape c = .bare st) : c.children = [some st] := by
+  unfold clauseShape at h
+  split at h
+  · rename_i st' hk; cases h; simpa using allSome_eq _ _ hk
+  · split at h
+    · split at h <;> cases h
+    · cases h
+  · cases h
+
+theorem clauseShape_typed {c s0 st : Node} {ss : List Node} (h : clauseShape c = .typed s0 ss st) :
+    c.children = ((s0 :: ss) ++ [st]).map some ∧ (∀ x ∈ s0 :: ss, x.name = "string") ∧ st.name = "statements" := by
+  unfold clauseShape at h
+  split at h
+  · cases h
+  · rename_i _ kids _ hk
+    split at h
+    · rename_i s0' ss' st' htw hdw
+      split at h
+      · rename_i hst
+        cases h
+        have hkids : kids = (s0 :: ss) ++ [st] := by
+          rw [← List.takeWhile_append_dropWhile (p := (·.name == "string")) (l := kids), htw, hdw]
+        refine ⟨by rw [allSome_eq _ _ hk, hkids], ?_, hst⟩
+        intro x hx
+        have : x ∈ kids.takeWhile (·.name == "string") := by rw [htw]; exact hx
+        simpa using mem_takeWhile_p _ _ _ this
+      · cases h
+    · cases h
+  · cases h
+
+/-- the block of a handled clause: in the clause's child scope -/
+def clauseBody (g : Nat → Node → Stmt) (sc : Nat) (c st : Node) : Stmt :=
+  .scoped (do newChild sc (← scopeName c)) (fun evs => g evs st)
+
+/-- one except clause `c` in front of `rest` -/
+def clauseOfNode (g : Nat → Node → Stmt) (f'' sc : Nat) (c : Node) (rest : Clauses) : Clauses :=
+  match clauseShape c with
+  | .bare st => .clause (fun _ => pure (.bool true)) (fun _ => clauseBody g sc c st) rest
+  | .typed s0 ss st =>
+    .clause (fun e => do
+        let b ← typedMatch (errType e) bytesToString ((s0 :: ss).map fun ch => eval f'' sc ch)
+        pure (.bool b))
+      (fun _ => clauseBody g sc c st) rest
+  | .other => .opaque (exceptHandler (f''+1) sc c) rest
+
+/-- the except clauses of a try node, in source order -/
+def clauseStmts (g : Nat → Node → Stmt) (f'' sc : Nat) : List Node → Clauses
+  | [] => .nil
+  | c :: cs => if c.name == "except" then clauseOfNode g f'' sc c (clauseStmts g f'' sc cs) else clauseStmts g f'' sc cs
+
+theorem handlers_clauseOfNode (g : Nat → Node → Stmt) (f'' sc : Nat) (c : Node) (rest : Clauses)
+    (hg : ∀ sc n, Impl.exec (g sc n) = eval f'' sc n) :
+    Impl.handlers (clauseOfNode g f'' sc c rest) = exceptHandler (f''+1) sc c :: Impl.handlers rest := by
+  unfold clauseOfNode
+  cases hs : clauseShape c with
+  | bare st =>
+    simp only [Impl.handlers, clauseBody, Impl.exec, hg]
+    congr 1; funext e
+    rw [exceptHandler_bare f'' sc c st e (clauseShape_bare hs)]
+    simp
+  | typed s0 ss st =>
+    obtain ⟨hc, hstr, hst⟩ := clauseShape_typed hs
+    simp only [Impl.handlers, clauseBody, Impl.exec, hg]
+    congr 1; funext e
+    rw [exceptHandler_typed f'' sc c s0 st ss e hc hstr hst]
+    simp only [bind_assoc, pure_bind]
+    congr 1; funext b
+    cases b <;> simp
+  | other => simp [Impl.handlers]
+
+theorem handlers_clauseStmts (g : Nat → Node → Stmt) (f'' sc : Nat)
+    (hg : ∀ sc n, Impl.exec (g sc n) = eval f'' sc n) : ∀ clauses : List Node,
+    Impl.handlers (clauseStmts g f'' sc clauses) = tryHandlers (f''+1) sc clauses
+  | [] => rfl
+  | c :: cs => by
+    have ih := handlers_clauseStmts g f'' sc hg cs
+    unfold clauseStmts
+    by_cases hc : (c.name == "except") = true
+    · rw [if_pos hc, handlers_clauseOfNode g f'' sc c _ hg, ih]
+      simp [tryHandlers, List.filter_cons, hc]
+    · rw [if_neg hc, ih]
+      simp [tryHandlers, List.filter_cons, hc]
+
 /-- the block of an otherwise / finally clause `c`, read in scope `x` -/
 def blockOf (g : Nat → Node → Stmt) (f' x : Nat) (c : Node) : Stmt :=
   match c.children with
@@ -111,31 +223,31 @@ theorem othOf_exec (g : Nat → Node → Stmt) (f' sc : Nat) (clauses : List Nod
   | some o => simp [Impl.exec, blockOf_exec g f' _ o hg]
 
 /-- the try block in its scope with the except clauses (whole handlers, source order) and otherwise -/
-def tryInner (g : Nat → Node → Stmt) (f' sc : Nat) (n body : Node) (clauses : List Node) : Stmt :=
+def tryInner (g : Nat → Node → Stmt) (f' sc : Nat) (n body : Node) (clauses : List Node) (cl : Clauses) : Stmt :=
   .scoped (do newChild sc (← scopeName n)) (fun tvs =>
-    .try_ (g tvs body) (clausesOf (tryHandlers f' sc clauses)) (clauses.find? (·.name == "otherwise")).isSome
+    .try_ (g tvs body) cl (clauses.find? (·.name == "otherwise")).isSome
       (othOf g f' sc clauses) false (.leaf (pure Val.null)))
 
-theorem tryInner_exec (g : Nat → Node → Stmt) (f' sc : Nat) (n body : Node) (clauses : List Node)
-    (hg : ∀ sc n, Impl.exec (g sc n) = eval f' sc n) :
-    Impl.exec (tryInner g f' sc n body clauses) = (do
+theorem tryInner_exec (g : Nat → Node → Stmt) (f' sc : Nat) (n body : Node) (clauses : List Node) (cl : Clauses)
+    (hg : ∀ sc n, Impl.exec (g sc n) = eval f' sc n) (hcl : Impl.handlers cl = tryHandlers f' sc clauses) :
+    Impl.exec (tryInner g f' sc n body clauses cl) = (do
       let tvs ← newChild sc (← scopeName n)
       tryCore (eval f' tvs body) (tryHandlers f' sc clauses) (tryOtherwise f' sc clauses)) := by
   unfold tryInner
-  simp only [Impl.exec, handlers_clausesOf, hg, othOf_exec g f' sc clauses hg, Bool.false_eq_true, if_false,
+  simp only [Impl.exec, hcl, hg, othOf_exec g f' sc clauses hg, Bool.false_eq_true, if_false,
     tryFinally_none, bind_assoc]
 
 /-- a whole try node: when its last clause is `finally`, the scope of that block is made first and the block
     is deferred around everything else -/
-def tryOf (g : Nat → Node → Stmt) (f' sc : Nat) (n body last : Node) (clauses : List Node) : Stmt :=
+def tryOf (g : Nat → Node → Stmt) (f' sc : Nat) (n body last : Node) (clauses : List Node) (cl : Clauses) : Stmt :=
   if last.name = "finally" then
     .scoped (do newChild sc (← scopeName last)) (fun fs =>
-      .try_ (tryInner g f' sc n body clauses) .nil false (.leaf (pure Val.null)) true (blockOf g f' fs last))
-  else tryInner g f' sc n body clauses
+      .try_ (tryInner g f' sc n body clauses cl) .nil false (.leaf (pure Val.null)) true (blockOf g f' fs last))
+  else tryInner g f' sc n body clauses cl
 
-theorem tryOf_exec (g : Nat → Node → Stmt) (f' sc : Nat) (n body last : Node) (clauses : List Node)
-    (hg : ∀ sc n, Impl.exec (g sc n) = eval f' sc n) :
-    Impl.exec (tryOf g f' sc n body last clauses) = (do
+theorem tryOf_exec (g : Nat → Node → Stmt) (f' sc : Nat) (n body last : Node) (clauses : List Node) (cl : Clauses)
+    (hg : ∀ sc n, Impl.exec (g sc n) = eval f' sc n) (hcl : Impl.handlers cl = tryHandlers f' sc clauses) :
+    Impl.exec (tryOf g f' sc n body last clauses cl) = (do
       let fin ← tryFin f' sc last
       tryFinally (do
         let tvs ← newChild sc (← scopeName n)
@@ -143,11 +255,11 @@ theorem tryOf_exec (g : Nat → Node → Stmt) (f' sc : Nat) (n body last : Node
   unfold tryOf
   by_cases hfn : last.name = "finally"
   · rw [if_pos hfn]
-    simp [Impl.exec, tryInner_exec g f' sc n body clauses hg, Impl.handlers, tryCore_nil, tryFin, hfn,
+    simp [Impl.exec, tryInner_exec g f' sc n body clauses cl hg hcl, Impl.handlers, tryCore_nil, tryFin, hfn,
       blockOf_exec g f' _ last hg]
   · rw [if_neg hfn]
     have hfin : tryFin f' sc last = pure none := by simp [tryFin, hfn]
-    simp only [tryInner_exec g f' sc n body clauses hg, hfin, pure_bind, tryFinally_none]
+    simp only [tryInner_exec g f' sc n body clauses cl hg hcl, hfin, pure_bind, tryFinally_none]
 
 mutual
 /-- a tree as a statement of the fragment (leaf = anything else, evaluated by `eval`) -/
@@ -175,7 +287,11 @@ def stmtOf : Nat → Nat → Node → Stmt
       match f, allSome n.children with
       | f'+1, some (body :: clauses) =>
         match (body :: clauses).getLast? with
-        | some last => tryOf (fun sc' c => stmtOf f' sc' c) f' sc n body last clauses
+        | some last =>
+          tryOf (fun sc' c => stmtOf f' sc' c) f' sc n body last clauses
+            (match f' with
+             | 0 => clausesOf (tryHandlers 0 sc clauses)
+             | f''+1 => clauseStmts (fun sc' c => stmtOf f'' sc' c) f'' sc clauses)
         | none => .leaf (eval (f'+2) sc n)
       | _, _ => .leaf (eval (f+1) sc n)
     else .leaf (eval (f+1) sc n)
@@ -237,7 +353,10 @@ theorem eval_is_impl : ∀ (f : Nat), (∀ sc n, Impl.exec (stmtOf f sc n) = eva
                   | none => simp [Impl.exec]
                   | some last =>
                     simp only []
-                    rw [tryOf_exec _ f' sc n body last clauses ihf',
+                    rw [tryOf_exec _ f' sc n body last clauses _ ihf' (by
+                        cases f' with
+                        | zero => exact handlers_clausesOf _
+                        | succ f'' => exact handlers_clauseStmts _ f'' sc (ih f'' (by omega)).1 clauses),
                       eval_try_is_tryFinally_tryCore_dispatchExcept f' sc n body last clauses h4 hc hl]
                 · simp [Impl.exec]
               · simp [h1, h2, h3, h4, Impl.exec]
@@ -267,14 +386,107 @@ theorem spec_call_never_ret (st : Stmt) (s s' : St) (e : RtErr) (v : Val) :
   rcases hr : Spec.exec st s with ⟨o, s1⟩
   cases o <;> simp
 
+/-- **eval_call_refines_spec** (program level: the CALL NODE; the side conditions `hmath`/`hlog` on the text of the
+    name hold for every name but log / error / debug / math.…; they are not kernel-decidable on literals because
+    `String.toUTF8` / `fromUTF8?` do not reduce, so there is no closed real-tree example — the driver runs check them): evaluating the node `name(args)` whose variable holds
+    the declared function `id`, with the arguments evaluated (`hargs`) and the frame built (`hprep`: scope `fvs`, body
+    `body`): the outcome is that of `callCore (withFreshIs (eval f fvs body))` with an error passed through
+    `wrapCallErr`, and that inner computation IS the reference semantics of `Stmt.call (Stmt.fresh (stmtOf f fvs body))`
+    — a `ret` outcome of the body becomes the normal value of the call (return leaves the innermost function with
+    its value), every other outcome is the body's -/
+theorem eval_call_refines_spec (f sc id fvs : Nat) (n fc body : Node) (t : Ecal.Lex.Tok) (b : Bool) (args : List Val)
+    (s s1 s2 s3 : St)
+    (hn : n.name = "identifier") (ht : n.tok = some t) (hc : n.children = [some fc]) (hfc : fc.name = "funccall")
+    (hmath : ((splitDots t.val).head? == some (Ecal.Lex.str "math")) = false)
+    (hlog : (bytesToString t.val == "log" || bytesToString t.val == "error" || bytesToString t.val == "debug") = false)
+    (hgv : run (getValue sc t.val) s = (.ok (.func id, b), s1))
+    (hargs : run (argsEval (f+1) sc fc) s1 = (.ok args, s2))
+    (hprep : run (framePrefix f sc id args) s2 = (.ok (fvs, body), s3)) :
+    run (eval (f+4) sc n) s =
+      (match run (callCore (withFreshIs (eval f fvs body))) s3 with
+       | (.ok v, s4) => (.ok v, s4)
+       | (.error e, s4) => (.error (wrapCallErr n e), s4)) ∧
+    toOutS (run (callCore (withFreshIs (eval f fvs body))) s3) = Spec.exec (.call (.fresh (stmtOf f fvs body))) s3 := by
+  refine ⟨?_, call_refines_spec f fvs body s3⟩
+  rw [eval_user_call (f+1) sc n fc t hn ht hc hfc hmath hlog]
+  simp only [run_bind, hgv, hargs, run_attempt, runFunction_frame_then_callCore, hprep]
+  rcases hr : run (callCore (withFreshIs (eval f fvs body))) s3 with ⟨r, s4⟩
+  cases r <;> rfl
+
+theorem wrapCallErr_ret (n : Node) (e : Sig) (re : RtErr) (v : Val) (h : wrapCallErr n e = .ret re v) : e = .ret re v := by
+  cases e with
+  | plainErr m =>
+    simp only [wrapCallErr] at h
+    split at h <;> (unfold rtErr at h; split at h <;> cases h)
+  | _ => simpa [wrapCallErr] using h
+
+/-- … and no return signal leaves the call node: `return` never crosses the call it belongs to -/
+theorem eval_call_never_ret (f sc id fvs : Nat) (n fc body : Node) (t : Ecal.Lex.Tok) (b : Bool) (args : List Val)
+    (s s1 s2 s3 s' : St) (re : RtErr) (v : Val)
+    (hn : n.name = "identifier") (ht : n.tok = some t) (hc : n.children = [some fc]) (hfc : fc.name = "funccall")
+    (hmath : ((splitDots t.val).head? == some (Ecal.Lex.str "math")) = false)
+    (hlog : (bytesToString t.val == "log" || bytesToString t.val == "error" || bytesToString t.val == "debug") = false)
+    (hgv : run (getValue sc t.val) s = (.ok (.func id, b), s1))
+    (hargs : run (argsEval (f+1) sc fc) s1 = (.ok args, s2))
+    (hprep : run (framePrefix f sc id args) s2 = (.ok (fvs, body), s3)) :
+    run (eval (f+4) sc n) s ≠ (.error (.ret re v), s') := by
+  rw [(eval_call_refines_spec f sc id fvs n fc body t b args s s1 s2 s3 hn ht hc hfc hmath hlog hgv hargs hprep).1]
+  rcases hr : run (callCore (withFreshIs (eval f fvs body))) s3 with ⟨r, s4⟩
+  cases r with
+  | ok w => simp
+  | error e =>
+    simp only []
+    intro h
+    have h1 : wrapCallErr n e = .ret re v := by injection h with h1 _; injection h1
+    have := wrapCallErr_ret n e re v h1
+    subst this
+    exact return_stops_at_call (withFreshIs (eval f fvs body)) s3 s4 re v hr
+
+/-- **spec_first_listed_clause** (program level, reference-semantics side): in the statement a try node reads as,
+    a typed except clause whose type strings are plain literals handles an error `e` EXACTLY when the type of `e`
+    is one of the listed texts — it then runs its block in the clause's scope and the statement continues
+    normally (value null) unless the block itself ends otherwise; when the type is not listed the error goes,
+    unchanged and without any effect, to the clauses after it. (`f` is the fuel of the clause's sub-trees.) -/
+theorem spec_first_listed_clause (g : Nat → Node → Stmt) (f sc : Nat) (c s0 st : Node) (ss : List Node) (rest : Clauses)
+    (e : Sig) (s : St) (hs : clauseShape c = .typed s0 ss st) (hv : ∀ x ∈ s0 :: ss, PlainStr x (textOf x)) :
+    Spec.handle (clauseOfNode g (f+2) sc c rest) e s =
+      if ((s0 :: ss).map textOf).any (fun b => bytesToString b == errType e) then
+        (match Spec.exec (clauseBody g sc c st) s with
+         | (.normal _, s2) => (.normal Val.null, s2)
+         | (o, s2) => (o, s2))
+      else Spec.handle rest e s := by
+  unfold clauseOfNode
+  rw [hs]
+  simp only [Spec.handle, liftM, map_eval_plain f sc _ hv, typedMatch_values, pure_bind, run_pure, toOutS, toOut_ok]
+  by_cases hl : ((s0 :: ss).map textOf).any (fun b => bytesToString b == errType e) = true
+  · simp only [hl, if_true]
+    rcases Spec.exec (clauseBody g sc c st) s with ⟨o, s2⟩
+    cases o <;> rfl
+  · simp only [hl, Bool.false_eq_true, if_false]
+
+/-- a bare clause handles every error -/
+theorem spec_bare_clause (g : Nat → Node → Stmt) (f'' sc : Nat) (c st : Node) (rest : Clauses) (e : Sig) (s : St)
+    (hs : clauseShape c = .bare st) :
+    Spec.handle (clauseOfNode g f'' sc c rest) e s =
+      (match Spec.exec (clauseBody g sc c st) s with
+       | (.normal _, s2) => (.normal Val.null, s2)
+       | (o, s2) => (o, s2)) := by
+  unfold clauseOfNode
+  rw [hs]
+  simp only [Spec.handle, liftM, run_pure, toOutS, toOut_ok]
+  rcases Spec.exec (clauseBody g sc c st) s with ⟨o, s2⟩
+  cases o <;> rfl
+
 /-- **spec_refinement_partial** — the PROVED part of "eval refines the reference semantics": `eval_refines_spec`
     under the name that says it is partial. FULL statement not proved: the same with (1) calls inside a program
-    read as `Stmt.call` (today a call node is a leaf of `stmtOf`; `call_refines_spec` is about the function body once
-    its frame exists and is not connected to the call node), (2) except clauses read as `Clauses.clause` with their
-    type test (today `Clauses.opaque`; the decision of a typed clause is `exceptHandler_typed_decides` /
-    `exceptHandler_typed_as_decides`, not part of `Spec.handle`), (3) `for … in` loops (leaves). With
+    read as `Stmt.call` BY `stmtOf` (a call node is still a leaf of `stmtOf`, because the function it calls is a value
+    of the state, not of the tree; the connection is made at the node instead: `eval_user_call`,
+    `eval_call_refines_spec`, `eval_call_never_ret` — hypotheses: the variable holds a declared function, arguments
+    and frame were built), (2) the clause shapes that BIND the error (`except e`, `except as e`, `"T" as e`,
+    `"T" e`: still `Clauses.opaque`; bare and typed clauses ARE `Clauses.clause` now — `spec_first_listed_clause`,
+    `spec_bare_clause`), (3) `for … in` loops (leaves). With
     `stmtOf := leaf ∘ eval` the statement would be `rfl`: its content is exactly the node kinds statements, if,
-    condition loop and the try skeleton (block, otherwise, finally, handler order). -/
+    condition loop and try (block, otherwise, finally, clause order, type test of bare / typed clauses). -/
 theorem spec_refinement_partial (f sc : Nat) (n : Node) (s : St) :
     toOutS (run (eval f sc n) s) = Spec.exec (stmtOf f sc n) s := eval_refines_spec f sc n s
 
